@@ -22,13 +22,16 @@ Has(r, k) == k \in DOMAIN r
 
 TextFields == {"pos", "frq", "bas", "nn"}
 TypedFields == {"raw", "u", "i", "b", "d", "y", "ip"}
-Fields == TextFields \cup TypedFields \cup {"fa", "j"}
+JsonFields == {"j", "j2"}          \* two JSON fields indexed with positions
+Fields == TextFields \cup TypedFields \cup {"fa"} \cup JsonFields
 
 \* JSON: one token stream per path; a text value is a sequence of words at positions 0, 1, ...
 \* A document may hold several values (objects) for the JSON field and a path may hold several text leaves
 \* (an array, or the same path in several of the values): the positions of a path CONTINUE across all of them,
 \* in the order indexed, with the same gap of PositionGap as between the values of a text field (this is what
 \* the unchanged indexer does: one position counter per path and document).  `vals` lists the leaves of a path
+\* The counter belongs to one (field, path, document): the same path in ANOTHER JSON field of the document starts
+\* at 0 again.
 \* in that order; the member `obj` (which value of the document a leaf sits in) does not enter the positions.
 RECURSIVE PathStr(_, _)
 PathStr(p, n) == IF n = 1 THEN p[1] ELSE PathStr(p, n - 1) \o "." \o p[n]
@@ -51,7 +54,7 @@ DocToks(d, f) ==
   ELSE IF f \in TextFields THEN Toks(d[f])
   ELSE IF f \in TypedFields THEN Single(d[f])
   ELSE IF f = "fa" THEN FacetsToks(d.fa, 1)
-  ELSE JsonToks(d.j, 1)
+  ELSE JsonToks(d[f], 1)
 DocNum(d, f) == IF ~Has(d, f) THEN 0 ELSE IF f \in TextFields THEN NumTokens(d[f]) ELSE Len(d[f])
 
 TDocs ==
